@@ -4,6 +4,7 @@
 package vfeng
 
 import (
+	"context"
 	"crypto/sha256"
 	"encoding/hex"
 	"encoding/json"
@@ -27,17 +28,17 @@ type Violation struct {
 }
 
 type Result struct {
-	Evaluations int64                      `json:"evaluations"`
-	States      int64                      `json:"states"`
-	Transitions int64                      `json:"transitions"`
-	Traces      int64                      `json:"traces"`
-	Classes     map[string]json.RawMessage `json:"classes"`
-	ClassCount  map[string]int64           `json:"class_count"`
-	Violations  []Violation                `json:"violations"`
-	Counters    map[string]int64           `json:"counters"`
-	Sets        map[string][]string        `json:"sets"`
-	Inexhaustive []string                  `json:"inexhaustive"`
-	HarnessErr  string                     `json:"harness_err"`
+	Evaluations  int64                      `json:"evaluations"`
+	States       int64                      `json:"states"`
+	Transitions  int64                      `json:"transitions"`
+	Traces       int64                      `json:"traces"`
+	Classes      map[string]json.RawMessage `json:"classes"`
+	ClassCount   map[string]int64           `json:"class_count"`
+	Violations   []Violation                `json:"violations"`
+	Counters     map[string]int64           `json:"counters"`
+	Sets         map[string][]string        `json:"sets"`
+	Inexhaustive []string                   `json:"inexhaustive"`
+	HarnessErr   string                     `json:"harness_err"`
 }
 
 type Check struct {
@@ -348,9 +349,23 @@ func Main(checks map[string]*Check) {
 			wg.Add(1)
 			go func(i int) {
 				defer wg.Done()
-				cmd := exec.Command(os.Args[0])
+				// watchdog: a worker that neither finishes nor honours its deadline is a
+				// harness failure (exit 3), never an endless wait
+				limit := 3600 * time.Second
+				if d, err := strconv.Atoi(os.Getenv("KMV_DEADLINE_S")); err == nil && d > 0 {
+					limit = time.Duration(d+1800) * time.Second
+				}
+				if d, err := strconv.Atoi(os.Getenv("KMV_SHARD_TIMEOUT_S")); err == nil && d > 0 {
+					limit = time.Duration(d) * time.Second
+				}
+				ctx, cancel := context.WithTimeout(context.Background(), limit)
+				defer cancel()
+				cmd := exec.CommandContext(ctx, os.Args[0])
 				cmd.Env = append(os.Environ(), fmt.Sprintf("KMV_SHARD=%d/%d", i, n), "KMV_RESULT="+filepath.Join(tmp, fmt.Sprintf("r%d.json", i)), "GOMAXPROCS=2")
 				outs[i], errs[i] = cmd.CombinedOutput()
+				if ctx.Err() != nil {
+					errs[i] = fmt.Errorf("worker killed by the %v watchdog (hung?)", limit)
+				}
 			}(i)
 		}
 		wg.Wait()
